@@ -173,6 +173,9 @@ class FunTr:
     function_locals = frozenset()  # every name the function assigns anywhere (reads of them never fall through to globals)
     protected = frozenset()      # names the translation relies on: never assignable
     mutable_types = frozenset()  # type tags of objects that can be changed in place (aliasing is refused)
+    module_aliases = {}          # names bound by module-level imports (visible inside inlined helpers)
+    helpers = {}                 # module-level helper functions that may be inlined: name -> (FunctionDef, Module)
+    helper_imports = None        # import statements accepted at the top of a helper: text -> {name: dotted path}
 
     def __init__(self, file, source):
         self.file = file
@@ -327,6 +330,12 @@ class FunTr:
         self.bail(e, "method `.%s(...)` of a value of type %s" % (attr, v.ty))
 
     def call(self, q, args, kwargs, e, env, B):
+        return self.unknown_call(q, args, kwargs, e, env, B)
+
+    def unknown_call(self, q, args, kwargs, e, env, B):
+        """last resort of the domain `call` hooks: a module-level helper is inlined, anything else refused"""
+        if isinstance(e.func, ast.Name) and q == e.func.id and q in self.helpers:
+            return self.inline_call(q, args, kwargs, e, env, B)
         self.bail(e, "call of `%s`" % q)
 
     def call_value(self, f, args, kwargs, e, env, B):
@@ -378,6 +387,67 @@ class FunTr:
         if v.ty == "bool":
             return ("bool", v.term)
         self.bail(e, "truth value of a %s in `%s`" % (v.ty, src_of(e)[:60]))
+
+    # ---- inlining of module-level helpers ------------------------------------------------------------------
+    def inline_call(self, name, args, kwargs, e, env, B):
+        """`name(args)` where `name` is a module-level function whose body is STRAIGHT-LINE:
+               [docstring] [imports] (local = expression)* return expression
+        The arguments are evaluated first, left to right, in the caller's environment (call by value); the body is then
+        translated with ONLY the parameters (and later its own locals) in scope, names resolved through the module-level
+        imports and the helper's own imports - Python's scoping.  No stores, augmented assignments, loops, conditionals
+        or nested calls of itself: the helper is a pure expression of its arguments, so substituting it is sound."""
+        fn, mod = self.helpers[name]
+        stack = getattr(self, "_inline_stack", [])
+        if name in stack or len(stack) >= 3:
+            self.bail(e, "recursive / deeply nested helper call `%s`" % name)
+        find_function(mod, self.file, name)                     # bound exactly once in the module
+        a = fn.args
+        if fn.decorator_list or a.defaults or a.kw_defaults or a.vararg or a.kwarg or a.kwonlyargs or a.posonlyargs:
+            self.bail(e, "helper `%s` has decorators / defaults / * parameters" % name)
+        if kwargs or len(args) != len(a.args):
+            self.bail(e, "call of helper `%s` with %d positional and %d keyword arguments (it takes %d positional)"
+                      % (name, len(args), len(kwargs), len(a.args)))
+        forbid_dynamic(fn, self.file)
+        vals = [self.expr(x, env, B) for x in args]
+        if self.helper_imports is not None:
+            al, body = leading_imports(fn, self.file, self.helper_imports)
+        else:
+            al, body = {}, body_no_doc(fn)
+            for st in body:
+                for n in ast.walk(st):
+                    if isinstance(n, (ast.Import, ast.ImportFrom)):
+                        self.bail(n, "import inside helper `%s`" % name)
+        henv = {}
+        for p_, v in zip(a.args, vals):
+            henv[p_.arg] = v
+        saved = (self.aliases, self.function_locals)
+        self.aliases = dict(self.module_aliases)
+        self.aliases.update(al)
+        self.function_locals = frozenset(assigned_names(body)) | frozenset(x.arg for x in a.args)
+        self._inline_stack = stack + [name]
+        try:
+            if any(x in self.aliases for x in self.function_locals):
+                self.bail(fn, "helper `%s` rebinds an imported name" % name)
+            if not body or not isinstance(body[-1], ast.Return) or body[-1].value is None:
+                self.bail(fn, "helper `%s` does not end in `return <expression>`" % name)
+            for st in body[:-1]:
+                if isinstance(st, ast.Expr) and isinstance(st.value, ast.Constant) and isinstance(st.value.value, str):
+                    continue
+                if not (isinstance(st, ast.Assign) and len(st.targets) == 1 and isinstance(st.targets[0], ast.Name)):
+                    self.bail(st, "statement `%s` in helper `%s` (only `local = expression` before the final return)"
+                              % (src_of(st)[:60], name))
+                v = self.expr(st.value, henv, B)
+                if v.ty in self.mutable_types and isinstance(st.value, (ast.Name, ast.Subscript, ast.Attribute)):
+                    self.bail(st, "`%s` binds a second name to a mutable %s" % (src_of(st)[:60], v.ty))
+                if v.ty.startswith("maybe:"):
+                    self.bail(st, "internal: maybe-typed value in a helper")
+                henv[st.targets[0].id] = v
+            out = self.expr(body[-1].value, henv, B)
+            self.facts.append("%s:%s: call of the module-level helper `%s` inlined (straight-line body)" % (self.file, e.lineno, name))
+            return out
+        finally:
+            self.aliases, self.function_locals = saved
+            self._inline_stack = stack
 
     # ---- conditions --------------------------------------------------------------------------------------
     def cond(self, t, env, B):
